@@ -20,6 +20,12 @@ import (
 type VerifEvilServer struct {
 	OmitServerKeyExchange bool   // do not send (nor hash) the ServerKeyExchange message
 	FinishedXor           []byte // xor-ed into the verify_data of its Finished
+	// message-discipline deviations (property C15): the transcript stays consistent with what is really sent
+	OmitChangeCipherSpec bool     // no ChangeCipherSpec: the Finished goes out in the clear
+	FinishedBeforeCCS    bool     // Finished in the clear first, then the ChangeCipherSpec
+	ExtraBeforeDone      [][]byte // raw handshake messages sent (and hashed) just before ServerHelloDone
+	ExtraAfterHello      [][]byte // raw handshake messages sent (and hashed) right after ServerHello
+	DoneTwice            bool     // ServerHelloDone sent (and hashed) twice
 }
 
 func verifXor(v, x []byte) []byte {
@@ -71,7 +77,7 @@ func (c *Conn) verifEvilServerHandshakeGM(k VerifEvilServer) error {
 	if err := hs.sendSessionTicket(); err != nil {
 		return err
 	}
-	if err := hs.verifEvilSendFinished(nil, k.FinishedXor); err != nil {
+	if err := hs.verifEvilSendFinished(nil, k); err != nil {
 		return err
 	}
 	if _, err := c.flush(); err != nil {
@@ -104,6 +110,13 @@ func (hs *serverHandshakeStateGM) verifEvilFullHandshake(k VerifEvilServer) erro
 	hs.finishedHash.Write(hs.hello.marshal())
 	if _, err := c.writeRecord(recordTypeHandshake, hs.hello.marshal()); err != nil {
 		return err
+	}
+
+	for _, m := range k.ExtraAfterHello {
+		hs.finishedHash.Write(m)
+		if _, err := c.writeRecord(recordTypeHandshake, m); err != nil {
+			return err
+		}
 	}
 
 	certMsg := new(certificateMsg)
@@ -165,10 +178,23 @@ func (hs *serverHandshakeStateGM) verifEvilFullHandshake(k VerifEvilServer) erro
 		}
 	}
 
+	for _, m := range k.ExtraBeforeDone {
+		hs.finishedHash.Write(m)
+		if _, err := c.writeRecord(recordTypeHandshake, m); err != nil {
+			return err
+		}
+	}
+
 	helloDone := new(serverHelloDoneMsg)
 	hs.finishedHash.Write(helloDone.marshal())
 	if _, err := c.writeRecord(recordTypeHandshake, helloDone.marshal()); err != nil {
 		return err
+	}
+	if k.DoneTwice {
+		hs.finishedHash.Write(helloDone.marshal())
+		if _, err := c.writeRecord(recordTypeHandshake, helloDone.marshal()); err != nil {
+			return err
+		}
 	}
 
 	if _, err := c.flush(); err != nil {
@@ -273,18 +299,25 @@ func (hs *serverHandshakeStateGM) verifEvilFullHandshake(k VerifEvilServer) erro
 }
 
 // copy of (*serverHandshakeStateGM).sendFinished; deviation: the verify_data is xor-ed
-func (hs *serverHandshakeStateGM) verifEvilSendFinished(out []byte, xor []byte) error {
+func (hs *serverHandshakeStateGM) verifEvilSendFinished(out []byte, k VerifEvilServer) error {
 	c := hs.c
 
-	if _, err := c.writeRecord(recordTypeChangeCipherSpec, []byte{1}); err != nil {
-		return err
+	if !k.OmitChangeCipherSpec && !k.FinishedBeforeCCS {
+		if _, err := c.writeRecord(recordTypeChangeCipherSpec, []byte{1}); err != nil {
+			return err
+		}
 	}
 
 	finished := new(finishedMsg)
-	finished.verifyData = verifXor(hs.finishedHash.serverSum(hs.masterSecret), xor)
+	finished.verifyData = verifXor(hs.finishedHash.serverSum(hs.masterSecret), k.FinishedXor)
 	hs.finishedHash.Write(finished.marshal())
 	if _, err := c.writeRecord(recordTypeHandshake, finished.marshal()); err != nil {
 		return err
+	}
+	if k.FinishedBeforeCCS {
+		if _, err := c.writeRecord(recordTypeChangeCipherSpec, []byte{1}); err != nil {
+			return err
+		}
 	}
 
 	c.cipherSuite = hs.suite.id
